@@ -17,7 +17,8 @@
 From Coq Require Import NArith List Bool.
 Import ListNotations.
 From HV Require Import lib.Harness model.Validity model.Builder spec.BuilderS proofs.BuilderP proofs.BuilderExtP
-  spec.BuilderWFS proofs.BuilderFrameP proofs.BuilderRulesP proofs.BuilderTypeP.
+  spec.BuilderWFS proofs.BuilderFrameP proofs.BuilderRulesP proofs.BuilderTypeP
+  proofs.BuilderAcyclicP.
 
 (* Proved for ALL programs of the modelled language, with no well-formedness premise: whenever the
    builder calls do not raise, the serialised document satisfies
@@ -70,13 +71,31 @@ Theorem C01_builder_ports_kinds : forall tys p g,
 Proof. exact run_ports_kinds. Qed.
 Print Assumptions C01_builder_ports_kinds.
 
+(* Second pass.  r_acyclic (rule 10, the boolean the validator computes: Kahn's algorithm on fuel over the
+   value, static and order edges between the children of each dataflow container) for every program whose
+   add_state_order calls go forward (spec/BuilderWFS.v: ord_prog, a boolean computed from the program text:
+   statement ids unique; every add_state_order joins Input / statements of the region it is written in /
+   Output in program order) and whose builder calls do not raise.  The ranking: node index, Output last; the
+   builders only wire existing nodes to the node being added, set_outputs wires into Output, and the order edge
+   of a non-local wire runs from the wire's source to a container created after it. *)
+Theorem C01_builder_acyclic : forall tys p g,
+  ord_prog p = true -> run tys p = Ok g -> r_acyclic g = true.
+Proof. exact run_acyclic. Qed.
+Print Assumptions C01_builder_acyclic.
+
+(* the premise ord_prog is needed: hugr-py accepts a backward add_state_order and the document then has a cycle *)
+Theorem C01_backward_order_refuted : ord_prog ex_cyclic = false /\ wt_prog ex_tys ex_cyclic = true /\
+  exists g, run ex_tys ex_cyclic = Ok g /\ r_acyclic g = false.
+Proof. exact ex_cyclic_refuted. Qed.
+Print Assumptions C01_backward_order_refuted.
+
 (* the premises are satisfiable by a non-trivial program: constant at the root, nested region with an Ext wire,
    MakeTuple / UnpackTuple / Noop, Tag, fixed-signature op, linear value, explicit order edge; 13 nodes *)
-Theorem C01_wf_example : wt_prog ex2_tys ex2_prog = true /\
+Theorem C01_wf_example : (wt_prog ex2_tys ex2_prog = true /\ ord_prog ex2_prog = true) /\
   exists g, run ex2_tys ex2_prog = Ok g /\
     valid {| v_tys := ex2_tys; v_main := g; v_subs := [] |} = true /\ length (g_nodes g) = 13%nat /\
     existsb (fun e => negb (optN_eqb (parent_of g (e_src e)) (parent_of g (e_dst e)))) (g_edges g) = true.
-Proof. exact ex2_runs. Qed.
+Proof. exact ex2_all. Qed.
 Print Assumptions C01_wf_example.
 
 (* the theorem is not vacuous: a program with a nested region and a non-local wire runs in the model and
